@@ -76,6 +76,31 @@ func separatePluginHandlers(handlers []PluginHandler) (invokeHandlers, ioHandler
 	return
 }
 
+// UsePlugins installs handlers in an invoke manager and an IO manager (either may be nil: its
+// handlers are left out), the handlers of plugin objects together with their object, so
+// that UnusePlugins finds them by it. Client.Use and Service.Use work this way; it is for
+// those who hold managers of their own (the reverse provider).
+func UsePlugins(invokeManager, ioManager PluginManager, handler ...PluginHandler) {
+	invokeHandlers, ioHandlers, invokeObjects, ioObjects := separatePluginHandlers(handler)
+	if invokeManager != nil {
+		usePluginHandlers(invokeManager, invokeHandlers, invokeObjects)
+	}
+	if ioManager != nil {
+		usePluginHandlers(ioManager, ioHandlers, ioObjects)
+	}
+}
+
+// UnusePlugins removes what UsePlugins has installed.
+func UnusePlugins(invokeManager, ioManager PluginManager, handler ...PluginHandler) {
+	invokeHandlers, ioHandlers, invokeObjects, ioObjects := separatePluginHandlers(handler)
+	if invokeManager != nil {
+		unusePluginHandlers(invokeManager, invokeHandlers, invokeObjects)
+	}
+	if ioManager != nil {
+		unusePluginHandlers(ioManager, ioHandlers, ioObjects)
+	}
+}
+
 // usePluginHandlers installs handlers together with the plugin objects they were taken from.
 func usePluginHandlers(manager PluginManager, handlers []PluginHandler, objects []PluginHandler) {
 	if len(handlers) == 0 {
